@@ -298,6 +298,13 @@ func checkC17(c *Ctx) {
 	c.R.Floor("G6.pair", 2)
 	c.R.Floor("G7.wire", 3)
 	c.R.Floor("A-u.utf16", 3)
+	// the conversions keep nothing in package-level memory between calls
+	c.rulePureAs("E.state", []string{"efi/util.GUIDToBytes", "efi/util.BytesToGUID", "efi/util.StringToGUID", "efi/util.(*EFIGUID).Bytes", "efi/util.(*EFIGUID).Format",
+		"efi/util.ParseUtf16Var", "efi/util.ReadNullString", "efi/util.CmpEFIGUID"})
+	c.R.Floor("E.state", 8)
+	c.ruleRecycle("P.recycle", func(f *ssa.Function) bool {
+		return strings.Contains(name(f), "efi/util.") || strings.Contains(name(f), "efivar.")
+	})
 }
 
 // guidCmp: CmpEFIGUID is a conjunction; go/ssa lowers a && b && c && d to a phi.
